@@ -208,7 +208,7 @@ def runC18 (op : String) (j : Json) : R Json := do
                       ("real_parsed", jOpt (fun (t : String) => jList (jList Json.str)
                           ((csvRead d t.toList).map fun r => r.map String.ofList)) real)])
   | "table" =>
-    -- `write_tsv` then `read_tsv` on file texts (4 = the n_significant_figures `write_tsv` passes)
+    -- `write_tsv` then `read_tsv` on file texts
     let rowsJ ← fld j "rows" >>= asArr
     let rows ← rowsJ.mapM fun r => do
       let cells ← asArr r
@@ -220,12 +220,16 @@ def runC18 (op : String) (j : Json) : R Json := do
     let first ← optText j "first"
     let isTsv ← getBool j "tsv"
     let real ← optText j "impl_text"
-    match writeTsv (renderW 4) rows first, writeTsvFile isTsv (renderW 4) rows first with
+    -- `n_significant_figures` (default 4)
+    let n := match j.getObjVal? "nsf" with
+      | .ok v => (v.getNat?.toOption).getD 4
+      | .error _ => 4
+    match writeTsv (renderW n) rows first, writeTsvFile isTsv (renderW n) rows first with
     | some file, some text =>
       pure (Json.mkObj [("header", jList Json.str file.1),
                         ("text", Json.str (String.ofList text)),
                         ("back", jOpt jRowsNum (readTsvFile tryMakeNumber text)),
-                        ("expected", jRowsNum (expectedRows file.1 (rows.map fun r => r.map fun fc => (fc.1, obsW 4 fc.2)))),
+                        ("expected", jRowsNum (expectedRows file.1 (rows.map fun r => r.map fun fc => (fc.1, obsW n fc.2)))),
                         ("real_parsed", jOpt (fun (t : String) => jOpt jRowsNum (readTsvFile tryMakeNumber t.toList)) real),
                         ("real_header", jOpt (fun (t : String) =>
                             let lines := fileLines t.toList
